@@ -11,6 +11,7 @@ pub mod c13;
 pub mod c14;
 pub mod c15;
 pub mod c16;
+pub mod c17;
 pub mod c19;
 pub mod c20;
 pub mod lsp_tiers;
@@ -34,6 +35,7 @@ fn table(id: &str) -> Option<(Run, Judge, &'static str, &'static [&'static str])
         "C13" => Some((c13::run, c13::judge, c13::RULE, c13::ASSUMPTIONS)),
         "C14" => Some((c14::run, c14::judge, c14::RULE, c14::ASSUMPTIONS)),
         "C15" => Some((c15::run, c15::judge, c15::RULE, c15::ASSUMPTIONS)),
+        "C17" => Some((c17::run, c17::judge, c17::RULE, c17::ASSUMPTIONS)),
         "C19" => Some((c19::run, c19::judge, c19::RULE, c19::ASSUMPTIONS)),
         "C20" => Some((c20::run, c20::judge, c20::RULE, c20::ASSUMPTIONS)),
         "C16" => Some((c16::run, c16::judge, c16::RULE, c16::ASSUMPTIONS)),
@@ -91,6 +93,10 @@ pub fn dispatch(ctx: &Ctx, replay: Option<&str>) -> i32 {
 }
 
 pub fn render_case(case: &Value) {
+    if let Ok(sp) = serde_json::from_value::<crate::props::c17::Spec>(case.clone()) {
+        print!("{}", crate::props::c17::render(&sp).text);
+        return;
+    }
     if let Ok(m) = serde_json::from_value::<crate::pygen::PModule>(case.clone()) {
         print!("{}", crate::pygen::render_module(&m));
         return;
